@@ -421,6 +421,20 @@ fn literal_texts() -> Vec<String> {
         }
         v.push(format!("local s = f(\"{}\", \"{}\") .. \"{}\"", b, b, b));
     }
+    // long bracket strings: the line break after the opening bracket, line breaks written CR LF,
+    // several leading line breaks; text that is not ASCII in every kind of quote
+    for l in ["[[\n\nUsage]]", "[[\r\nline one\r\nline two\r\n]]", "[==[\n]==]", "[[\n]]", "[[\r\n]]", "[[\n\n]]", "[[a\r\nb]]", "[=[\r\n\r\nx]=]", "[[ \nx]]", "[[\tq\n\n]]", "[[]]", "[[\n\r\nx]]"] {
+        v.push(format!("return {}", l));
+        v.push(format!("local s = f({}) .. {}", l, l));
+        v.push(format!("f {}", l));
+    }
+    for b in ["é", "Café: € — merci", "日本語", "a\u{e9}é"] {
+        v.push(format!("return \"{}\"", b));
+        v.push(format!("return '{}'", b));
+        v.push(format!("return `{}`", b));
+        v.push(format!("return `{}{{x}} {} {{y}}{}`", b, b, b));
+        v.push(format!("return [[{}]]", b));
+    }
     for n in numbers {
         v.push(format!("return {}", n));
         v.push(format!("return -{}, f({}, {})", n, n, n));
@@ -430,6 +444,7 @@ fn literal_texts() -> Vec<String> {
 }
 
 fn run(ctx: &RunCtx) {
+    crate::props::c02::allow_unicode_escape_for_non_ascii_text();
     // strings: exhaustive up to length 2
     let total = 1u64 + 256 + 65536;
     ctx.add_class("exhaustive_short_strings", total);
@@ -624,6 +639,7 @@ fn run(ctx: &RunCtx) {
 }
 
 fn replay(v: &Value) -> Result<(), String> {
+    crate::props::c02::allow_unicode_escape_for_non_ascii_text();
     let g = match v.get("generator").and_then(|s| s.as_str()) {
         Some("Readable") => G::Readable,
         Some("Token") => G::Token,
